@@ -73,6 +73,11 @@ def sel_annotate(case, ctx):
                        "bin2_id": np.array([p[2] for p in px], dtype=case.get("id_dtype", "int64")),
                        "count": np.array([p[3] for p in px], dtype=np.int64)},
                       index=pd.Index([p[0] for p in px], dtype=np.int64))
+    if case.get("rindex"):
+        df.index = pd.RangeIndex(*case["rindex"])          # same labels, carried by a RangeIndex
+        if [int(x) for x in df.index] != [p[0] for p in px]:
+            from ..tlc import MachineryError
+            raise MachineryError("sel.annotate: case labels do not match the RangeIndex")
     form = case["bins_form"]
     a, b = case["part"]
     try:
